@@ -135,6 +135,26 @@ pub struct DebuggerContext {
     breakpoints: Arc<Mutex<HashSet<String>>>,
 }
 
+/// Schedule points for the verification harness (`/verif`): a callback invoked before each
+/// atomic action of the parser thread's listener and of `run` / `cont`.
+#[cfg(pest_parser_pest_verif)]
+pub mod verif {
+    use std::sync::{Arc, Mutex};
+    type Hook = Arc<dyn Fn(&'static str) + Send + Sync>;
+    static HOOK: Mutex<Option<Hook>> = Mutex::new(None);
+    /// Install (or remove) the callback.
+    pub fn set_hook(h: Option<Hook>) {
+        *HOOK.lock().unwrap() = h;
+    }
+    /// Called by the debugger at each labelled point.
+    pub fn point(label: &'static str) {
+        let h = HOOK.lock().unwrap().clone();
+        if let Some(h) = h {
+            h(label)
+        }
+    }
+}
+
 const POISONED_LOCK_PANIC: &str = "poisoned lock";
 const CHANNEL_CLOSED_PANIC: &str = "channel closed";
 
@@ -249,16 +269,22 @@ impl DebuggerContext {
             let vm = Vm::new_with_listener(
                 ast,
                 Box::new(move |rule, pos| {
+                    #[cfg(pest_parser_pest_verif)]
+                    verif::point("parser.check_done");
                     if is_done_signal.load(Ordering::SeqCst) {
                         return true;
                     }
 
+                    #[cfg(pest_parser_pest_verif)]
+                    verif::point("parser.lock_bps");
                     let contains_rule = {
                         let lock = breakpoints.lock().expect(POISONED_LOCK_PANIC);
                         lock.contains(&rule)
                     };
 
                     if contains_rule {
+    #[cfg(pest_parser_pest_verif)]
+                        verif::point("parser.send");
                         rsender
                             .send(DebuggerEvent::Breakpoint(rule, pos.pos()))
                             .expect(CHANNEL_CLOSED_PANIC);
@@ -269,7 +295,10 @@ impl DebuggerContext {
                 }),
             );
 
-            match vm.parse(&rule, &input) {
+            let result = vm.parse(&rule, &input);
+            #[cfg(pest_parser_pest_verif)]
+            verif::point("parser.finish_send");
+            match result {
                 Ok(_) => sender.send(DebuggerEvent::Eof).expect(CHANNEL_CLOSED_PANIC),
                 Err(error) => sender
                     .send(DebuggerEvent::Error(error.to_string()))
@@ -305,10 +334,18 @@ impl DebuggerContext {
     /// This naturally returns errors if the grammar or input haven't been loaded yet etc.
     pub fn run(&mut self, rule: &str, sender: Sender<DebuggerEvent>) -> Result<(), DebuggerError> {
         if let Some(handle) = self.handle.take() {
+            #[cfg(pest_parser_pest_verif)]
+            verif::point("run.load_done");
             if !(self.is_done.load(Ordering::Relaxed)) {
+                #[cfg(pest_parser_pest_verif)]
+                verif::point("run.store_done");
                 self.is_done.store(true, Ordering::SeqCst);
+                #[cfg(pest_parser_pest_verif)]
+                verif::point("run.unpark");
                 handle.thread().unpark();
             }
+            #[cfg(pest_parser_pest_verif)]
+            verif::point("run.join");
             handle
                 .join()
                 .map_err(|e| DebuggerError::PreviousRunPanic(format!("{e:?}")))?;
@@ -334,12 +371,16 @@ impl DebuggerContext {
     /// Continue the debugger session from the breakpoint.
     /// It returns an error if the session finished or wasn't started yet.
     pub fn cont(&self) -> Result<(), DebuggerError> {
+        #[cfg(pest_parser_pest_verif)]
+        verif::point("cont.load_done");
         if self.is_done.load(Ordering::SeqCst) {
             return Err(DebuggerError::EofReached);
         }
 
         match self.handle {
             Some(ref handle) => {
+                #[cfg(pest_parser_pest_verif)]
+                verif::point("cont.unpark");
                 handle.thread().unpark();
                 Ok(())
             }
